@@ -159,6 +159,9 @@ func TestPropC06(t *testing.T) {
 			cls = append(cls, "stage_"+st.Name)
 		}
 		cls = append(cls, "terminal_"+sp.Terminal.Name)
+		if sp.HasLazyIndex() {
+			cls = append(cls, "closure_indexes_a_lazy_list_of_its_own")
+		}
 		nt := inf.parallel && sp.ClosureStages()+b2i(closureTerminal(sp.Terminal.Name)) >= 2
 		evid.R.Case(nt, c.Text+fmt.Sprint(c.SleepUs), func() any {
 			return map[string]any{"pipeline": sp.Describe(), "text": c.Text, "gomaxprocs": c.Procs, "repeats": c.Repeats}
